@@ -131,7 +131,6 @@ def rpc_auth(ctx, P, cg):
         if is401:
             ctx.ob("HTTPReq_JSONRPC/401-only-on-failure@L%s" % s.line, "LADDER", "HTTP_UNAUTHORIZED is sent only when the header is missing or the credentials are refused",
                    F.implies(fb, F.parse("!HDR || !AUTH")), s.where)
-    ctx.floor("HTTP_UNAUTHORIZED replies", n401, 2)
     callers = sorted({c[0] for c in cg.call_sites("ExecuteHTTPRPC")})
     ctx.ob("who-calls/ExecuteHTTPRPC", "WHO-MAY-CALL", "ExecuteHTTPRPC is called only from HTTPReq_JSONRPC (and the in-process IPC interface)",
            "HTTPReq_JSONRPC" in callers and set(callers) <= {"HTTPReq_JSONRPC", "node::RpcImpl::executeRpc"}, None, {"callers": callers})
